@@ -47,7 +47,7 @@ def gen_cases(seed, tier):
         for j in range(int(rng.integers(1, 5))):
             if j > 0 and has_cfg and f > 0 and rng.random() < 0.4:
                 ops.append(["restore", str(rng.choice(["latest", "latest", "older"])), str(rng.choice(["same", "new"])),
-                            dict(f=int(rng.choice([0, 1, 2, 3])) or None, m=int(rng.choice([0, 1, 2, 4])) or None,
+                            dict(f=[None, 0, 1, 2, 3][int(rng.integers(0, 5))], m=int(rng.choice([0, 1, 2, 4])) or None,
                                  asyn=[None, True, False][int(rng.integers(0, 3))])])
             ops.append(["solve", int(rng.integers(1, 13))])
         c = dict(solver=sv, f=f, m=m, asyn=bool(rng.integers(0, 2)), ops=ops, devices=1,
@@ -144,8 +144,8 @@ def run_case(case):
                 ndir += 1
                 newD = os.path.join(base, f"d{ndir}") if where == "new" else None
                 rkw = {}
-                if ov.get("f"):
-                    rkw["checkpoint_frequency"] = ov["f"]
+                if ov.get("f") is not None:
+                    rkw["checkpoint_frequency"] = ov["f"]     # 0 is a legitimate override: stop checkpointing
                 if ov.get("m"):
                     rkw["max_checkpoints"] = ov["m"]
                 if ov.get("asyn") is not None:
@@ -153,8 +153,29 @@ def run_case(case):
                 s = target.call(f"restore(step={step}, new_dir={where}, {rkw})", cls.restore, D, step=step,
                                 new_checkpoint_dir=newD, **rkw)
                 log = ckpt.wrap_save(s, sv, log)
-                f = ov.get("f") or f
+                f = ov["f"] if ov.get("f") is not None else f
                 m = ov.get("m") or m
+                if f == 0:
+                    # checkpointing switched off by the override: nothing may be written from now on,
+                    # neither into a new directory (which must not even be created) nor into the old one
+                    if int(getattr(s, "checkpoint_frequency", -1)) != 0:
+                        return dict(status="violation", kind="override",
+                                    detail=f"restore(checkpoint_frequency=0) left frequency {getattr(s, 'checkpoint_frequency', None)} in effect")
+                    frozen = ckpt.dir_digest(D)
+                    i0 = int(s.iteration)
+                    target.solve(s, 3)
+                    ckpt.wait(s)
+                    if newD and os.path.exists(newD):
+                        return dict(status="violation", kind="f0-writes",
+                                    detail=f"{sv}: restore(checkpoint_frequency=0, new directory) followed by solve() created {os.path.basename(newD)} "
+                                           f"holding {ckpt.listing(newD)}")
+                    if ckpt.dir_digest(D) != frozen:
+                        return dict(status="violation", kind="f0-writes",
+                                    detail=f"{sv}: restore(checkpoint_frequency=0) followed by solve() changed the checkpoint directory "
+                                           f"(steps now {ckpt.listing(D)})")
+                    n_list += 1
+                    hclass.add("restore-f0")
+                    break
                 if ov.get("asyn") is not None:
                     asyn = ov["asyn"]
                 if int(s.checkpoint_frequency) != f or int(s.max_checkpoints) != m or bool(s.enable_async_checkpointing) != asyn:
@@ -176,7 +197,7 @@ def run_case(case):
                         hclass.add("restore-latest-same")
         # every retained step holds the solver state of that iteration
         n_steps = 0
-        if f > 0:
+        if f > 0 and os.path.isdir(D):
             ckpt.wait(s)
             first_call = {}
             for entry in log:
